@@ -6,6 +6,14 @@ import os
 VERIF = os.path.dirname(os.path.dirname(os.path.abspath(__file__)))
 
 CLAIMED = {
+    "C16": dict(level="fault_enumeration", design="3/C16",
+                technique="deterministic simulation with fault injection into stored state: documented irregularities injected at every applicable location of every corpus deck (singles enumerated, pairs seeded), 3 storage forms; fault-aware independent OPC reader + exact exception-class table as oracle",
+                text="Every single stored-state fault location of every corpus deck is enumerated (thorough: all of them x 3 storage forms; quick: seeded stratified slice + pinned cases) and pairs are sampled by seed; the loaded package must equal what an independent reader finds still reachable in the faulted bytes, the re-saved package must be closed, and non-packages must be refused with exactly the promised exception class.",
+                note="trusted: zipfile, sim/refpkg.py, package transformers in sim/pkgxform.py and sim/props/c16.py; only listed irregularities are injected; pairs are sampled, not enumerated"),
+    "C01": dict(level="exploration", design="3/C01",
+                technique="deterministic simulation (storage seam, zero-fault control arm): seeded generator of stored OPC packages -> open/save/re-open cycles across 3 storage forms x 3 sink kinds under clock jumps; independent OPC reference reader as oracle",
+                text="Seeded search over generated well-formed OPC packages (relationship-graph shapes, target spellings, content-type declaration mixes, payload kinds) plus every corpus deck, each driven through open -> save -> open -> save -> open on the simulated storage with clock jumps; an independent reader compares reachable parts, types, payloads and relationships of input and output and checks the second cycle is a byte fix-point. Sampling, not proof.",
+                note="trusted: zipfile, lxml C14N, sim/refpkg.py; part names restricted to URI-safe characters; member order/compression/timestamps not asserted"),
     "C03": dict(level="exploration", design="3/C03",
                 technique="deterministic simulation: seeded op/fault histories; differential XSD validation (vendored ISO 29500-4 transitional schemas, MCE preprocessing) of every changed XML part after every event",
                 text="Seeded search over operation histories (formatting-heavy swarm mix, rejected calls and source I/O faults as injected faults) from the default template and every corpus deck; after every event each changed XML part is validated differentially against the vendored schemas. Sampling, not proof.",
